@@ -27,7 +27,7 @@ RULE = (
     "list of 3, 2 nested} x rweight/resolution x cosmology names(3) x (zmin,zmax,num_bins) incl. non-representable decimals, "
     "custom edges, max_workers; text: classes{CorrData,RedshiftData,HistData} x bins{1,2,3} x samples{2,3} x "
     "value alphabet {0,+-1e-12,+-0.123456789,+-12345.678,+-1e9,nan,+-inf} placed in every position; metadata: "
-    "special floats and right ascensions outside [0,2pi); cache: reopen; prefix: every ordered pair of two products written side by side under the path prefixes {prod, nz_0.1, nz_0.2, run.v2.final, nz_0, a.b}, each must read back as itself. Non-trivial: anything but the plain dense/linear/default case. Oracle: "
+    "special floats and right ascensions outside [0,2pi); hdf: PatchedCounts of 181, 182, 200, 300 patches (pair index beyond 16 bit); the same path written again with another product and read again; cache: reopen; prefix: every ordered pair of two products written side by side under the path prefixes {prod, nz_0.1, nz_0.2, run.v2.final, nz_0, a.b}, each must read back as itself. Non-trivial: anything but the plain dense/linear/default case. Oracle: "
     "own snapshot comparison plus the library's ==, identical sample(), bit-identical edges."
 )
 ASSUMPTIONS = [
